@@ -43,8 +43,10 @@ GFF3_ATTR = "ID=%s;Name=n%d"
 GTF_ATTR = 'gene_id "g%d"; transcript_id "t%d";'
 
 DIRECTIVES = ["##gff-version 3", "##sequence-region chr1 1 100000", "##", "###", "## spaced out ", "##FASTA ",
-              "##fasta", "##species http://x/y?a=b;c", "##déjà vu", "##>not-a-header", "##\tdata"]
-COMMENTS = ["#c", "#", "# a comment", "#!x", "#>", "#\t1\t2"]
+              "##fasta", "##species http://x/y?a=b;c", "##déjà vu", "##>not-a-header", "##\tdata",
+              # characters str.splitlines() takes for line boundaries although no file reader does
+              "##form\x0cfeed", "##sep\u2028arator two", "##nel\x85x", "##gs\x1dx\x0by"]
+COMMENTS = ["#c", "#", "# a comment", "#!x", "#>", "#\t1\t2", "#c\x0cd e", "#u\u2029v", "#f\x1cchr1\tsrc\tgene"]
 FASTA_TAILS = [
     ["##FASTA", ">chr1", "ACGTACGT", "##after-fasta", "#c", ""],
     ["##FASTA"],
